@@ -357,6 +357,52 @@ fn main() {
         }
     }
 
+    // ------------------------------------------------------------ the same solver solved twice, with idle
+    // time before and between the solves and a finite time limit: idle wall-clock time outside
+    // solve() and the time of the earlier solve must not count against the limit, so both solves
+    // return the base verdict.  Robust under load: MaxTime is a failure only when the WHOLE call
+    // took less than the limit by this harness's own clock.
+    if replay.is_none() {
+        let lim = 0.4f64;
+        let probs: Vec<Prob> = bases.iter().take(if thorough { 32 } else { 8 }).cloned().collect();
+        let mut handles = vec![];
+        for p in probs.into_iter() {
+            handles.push(std::thread::spawn(move || {
+                let base = solve(&p, &Knobs::default());
+                let r = guarded(|| {
+                    let mut st = Knobs::default().settings();
+                    st.time_limit = lim;
+                    let mut solver = DefaultSolver::new(&p.P, &p.q, &p.A, &p.b, &p.cones, st);
+                    let mut outs = vec![];
+                    for _ in 0..2 {
+                        std::thread::sleep(std::time::Duration::from_secs_f64(lim * 1.25));
+                        let t0 = std::time::Instant::now();
+                        solver.solve();
+                        let d = t0.elapsed().as_secs_f64();
+                        outs.push((solver.solution.status, solver.solution.solve_time, d));
+                    }
+                    outs
+                });
+                (p, base, r)
+            }));
+        }
+        for h in handles {
+            if let Ok((p, Some(base), Some(outs))) = h.join() {
+                for (k, (st, reported, d)) in outs.iter().enumerate() {
+                    let early_maxtime = *st == SolverStatus::MaxTime && *d < lim;
+                    let inconclusive = *st == SolverStatus::MaxTime && *d >= lim;
+                    let same = (*st as u32) == base.status;
+                    let time_ok = *reported <= *d + 1e-3;
+                    let ok = !early_maxtime && (same || inconclusive) && time_ok;
+                    sink.record(json!({"direct": {"prop": "C05", "ok": ok,
+                        "what": "a solver solved after idle time (and solved twice) under a finite time limit gives the base verdict: idle time and earlier solves do not count against the limit, reported solve_time <= duration of the call",
+                        "input": {"label": p.label, "problem": p.to_json(), "solve": k + 1, "status": *st as u32, "base_status": base.status,
+                                  "time_limit": lim, "reported_solve_time": reported, "measured_call_s": d}}}));
+                }
+            }
+        }
+    }
+
     sink.record(json!({"stats": Value::Object(stats)}));
     sink.record(json!({"meta": {"prop": "c05", "seed": seed, "tier": tier, "blas": blas_shim::AVAILABLE}}));
     sink.flush();
